@@ -2,6 +2,7 @@ import BridgeVerif.Driver.Util
 import BridgeVerif.Driver.Hands
 import BridgeVerif.Driver.Notation
 import BridgeVerif.Model.Session
+import BridgeVerif.Model.Abort
 /-! Driver ops `X.*` : a session scenario is assembled line by line, then its per-thread programs, log
 records and seat streams are printed, and the canonical (lowest-enabled-first) run is executed. -/
 namespace Bridge.Driver
@@ -102,6 +103,13 @@ def sessionOps (x : XState) (t : List String) : XState × String :=
       | some r => (x, showRecord r)
       | none => (x, "none")
     | none => (x, "bad-op")
+  -- the log file when main raises during board k+1 (k records written): closed by the `with` statement / left open
+  | ["X.abortlog", k, closed] =>
+    match nat? k, bool? closed with
+    | some k, some c =>
+      let recs := (writesOf (sessionProg x.scenario .main)).take k
+      (x, hexOf (logFileText (LogOp.open :: recs.map LogOp.write ++ (if c then [LogOp.close] else []))))
+    | _, _ => (x, "bad-op")
   | ["X.logops"] =>
     (x, " ".intercalate ((emitsOf (sessionProg x.scenario .main)).map fun o =>
       match o with | .open => "open" | .write _ => "write" | .close => "close"))
